@@ -365,15 +365,18 @@ BARE_LAYOUTS = [[[True, 5, 2, 1]], [[False, 4, 8, 2], [True, 5, 4, 1]],
 def build_lib(spec):
     """the library's own programs, re-assembled from /repo"""
     n = spec["name"]
-    if n == "dispatcher":
-        d = progs.ether_xdp()
-        return {"insns": _insns(d["insns"]), "maps": [[d["var_fd"], "array", 4, d["var_size"], 1, 2],
-                                                      [d["programs_fd"], "prog_array", 4, 4, 64, 3]]}
-    if n.startswith("bare:"):
-        g = progs.bare_fast_group(BARE_LAYOUTS[int(n[5:])])
-    else:
-        parts = n.split(":")
-        g = progs.device_group(parts[1].split("+"), fmmu=len(parts) > 2)
+    try:
+        if n == "dispatcher":
+            d = progs.ether_xdp()
+            return {"insns": _insns(d["insns"]), "maps": [[d["var_fd"], "array", 4, d["var_size"], 1, 2],
+                                                          [d["programs_fd"], "prog_array", 4, 4, 64, 3]]}
+        if n.startswith("bare:"):
+            g = progs.bare_fast_group(BARE_LAYOUTS[int(n[5:])])
+        else:
+            parts = n.split(":")
+            g = progs.device_group(parts[1].split("+"), fmmu=len(parts) > 2)
+    except Exception as ex:                       # noqa: BLE001 - a library program that cannot even be assembled
+        raise Refused(f"{type(ex).__name__}: {ex}")
     return {"insns": _insns(g["insns"]), "maps": [[g["var_fd"], "array", 4, g["var_size"], 1, 2]]}
 
 
@@ -421,7 +424,7 @@ def kload(insns, maps):
 RULES = [
     ("uninit", r"R\d+ !read_ok"),
     ("stack", r"invalid (read|write|indirect read|indirect access|variable-offset|unbounded).*stack|misaligned stack access|"
-              r"invalid stack off|invalid .*stack R\d|stack depth|invalid write to stack"),
+              r"invalid stack off|invalid .*stack R\d|stack depth|invalid write to stack|invalid size of register spill"),
     ("null", r"map_value_or_null|null-check it first"),
     ("mapval", r"invalid access to map value|outside of the allowed memory range|unbounded memory access|"
                r"math between map_value pointer|unbounded min value"),
@@ -802,13 +805,14 @@ def check_base(ctx, case, have_kernel):
     ctx.case(case, nontrivial=len(built["insns"]) > 4, kind=case["kind"])
     if case.get("expect") == "refused":
         ctx.stats["unowned-accepted"] += 1
+    preds = [name for name, pred, _ in CLASSES if pred(case, built)]
     if not have_kernel:
-        return {"case": case, "built": built, "kernel": None, "log": "", "cls": None}
+        return {"case": case, "built": built, "kernel": None, "log": "", "cls": None, "preds": preds}
     v, log = kload(built["insns"], built["maps"])
     cls = failure_class(case, built, log) if v == "reject" else None
     ctx.require(v == "accept", "the kernel verifier rejects a program the generator accepted", case,
                 {"verifier_log": _tail(log), "insns": len(built["insns"])}, cls)
-    return {"case": case, "built": built, "kernel": v, "log": log, "cls": cls}
+    return {"case": case, "built": built, "kernel": v, "log": log, "cls": cls, "preds": preds}
 
 
 def compare(ctx, item, out, agreement):
@@ -822,17 +826,24 @@ def compare(ctx, item, out, agreement):
     mutant = case["kind"] == "mutant"
     tag = "mutant" if mutant else "base"
     if v is None:                                            # no kernel: only the regenerated obligations
-        if not mutant and item["cls"] is None:
+        if not mutant and not item["preds"]:
             ctx.agree("MiniV accepts the generated program (no kernel available)", case, "accept", strict)
         return
     krule, kmsg = klass(log) if v == "reject" else (None, "")
     if v == "accept":
         if priv == "accept":
             agreement[f"{tag}:both-accept"] += 1
-            if not mutant:                                   # unprivileged reading of rule 2 as well
+            if not mutant and strict != "accept" and item["preds"]:
+                # a known defect class whose symptom only the unprivileged verifier shows (unwritten stack bytes)
+                agreement["base:strict-stack-rule-rejects:" + item["preds"][0]] += 1
+            elif not mutant:                                 # unprivileged reading of rule 2 as well
                 ctx.agree("MiniV (strict stack rule) accepts the generated program", case, "accept", strict)
-        elif mrule in CONSERVATIVE or (mutant and _pc(priv) not in visited_or_all(item)):
+        elif mrule in CONSERVATIVE:
             agreement[f"{tag}:mini-conservative:{mrule}"] += 1
+        elif _pc(priv) not in visited_or_all(item):
+            agreement[f"{tag}:kernel-pruned-branch:{mrule}"] += 1        # dead code for the kernel's path-sensitive walk
+        elif not mutant and item["preds"]:
+            agreement[f"base:known-class-kernel-accepts:{item['preds'][0]}"] += 1
         else:
             agreement[f"{tag}:mini-rejects-kernel-accepts:{mrule}"] += 1
             if not mutant:
@@ -920,7 +931,12 @@ def run(ctx):
     others = [it for it in bases if it["case"]["kind"] != "lib"]
     chosen = libs + rng.sample(others, min(len(others), ctx.n(60, 1200)))
     mutants = []
+    import time
+    t_end = time.time() + ctx.n(50, 600)                     # the kernel decides how long a load takes: never run away
     for it in chosen:
+        if time.time() > t_end:
+            ctx.notes.append(f"mutant generation stopped at the time budget after {len(mutants)} mutants")
+            break
         per = ctx.n(12, 40) if it["case"]["kind"] == "lib" else ctx.n(5, 8)
         for mut in gen_mutants(rng, it["built"]["insns"], per):
             case = {"kind": "mutant", "base": it["case"], "mut": mut}
@@ -932,7 +948,7 @@ def run(ctx):
             else:
                 v, log = None, ""
             ctx.case(case, nontrivial=True, kind="mutant:" + mut[0])
-            mutants.append({"case": case, "built": built, "kernel": v, "log": log, "cls": None})
+            mutants.append({"case": case, "built": built, "kernel": v, "log": log, "cls": None, "preds": []})
     allp = items + mutants
     outs = ctx.drive(DRIVER, [_line(it["built"]) for it in allp], "MiniVerifier")
     agreement = collections.Counter()
